@@ -2,6 +2,7 @@ package main
 
 import (
 	"fmt"
+	"go/ast"
 	"go/token"
 	"go/types"
 	"sort"
@@ -18,6 +19,7 @@ func init() {
 			"R2.2 associativity: the climbing loop continues only on a STRICT 'requested < peek' comparison; every left-associative infix method reads its own token's level before advancing and parses its right operand exactly at that level; assignment operators parse their right side below their own level (right-associative); delimited operands are exempt; " +
 			"R2.3 every keyword of the lexer's table has a consumer in the parser (dispatch case, prefix entry, or an explicit token test) and every token the parser tests for can be produced by the lexer; " +
 			"R2.4 statement boundaries: (a) accept paths of the separator check (= R12.2); (b) restricted productions — no return value is parsed when the next token follows a line break or is ';', '}' or the end of the input, and the climbing loop does not apply a postfix operator that follows a line break; (c) the climbing loop has no other statement cut than these and the smart-semicolon cut. " +
+			"R2.4c after a line break the separator check refuses only in front of a token with an infix function; R2.6 every function that builds a list of nodes element by element appends inside a loop (or is the body of its caller's loop); R2.7 every child a printer prints under a nil test and the parser fills under a condition can be left out and can be given on feasible success paths; " +
 			"R2.5 the byte test the trivia skipper loops on, folded per byte, is true for space, tab, LF and CR and for nothing outside ECMAScript's ASCII white space. " +
 			"Not decided: that every subset program is accepted and gets the ECMAScript tree (needs the grammar and a run).",
 		notDecided: []string{"acceptance of every subset program / full grammar conformance", "ASI cases that depend on 'offending token not allowed by the grammar'", "CR, LS, PS as line terminators", "numeric literal acceptance (strconv vs ECMAScript)"},
@@ -50,9 +52,275 @@ func runC02(c *Ctx) {
 	c.rule("R2.4b", "restricted productions: no return value after a line break, and none in front of ';', '}' or the end of the input; no postfix operator applied after a line break")
 	c.floor(3)
 	ruleRestrictedProductions(c, t, a)
+	c.rule("R2.4c", "after a line break the separator check refuses only in front of a token that can continue the expression (one with an infix function): a line break in front of anything else — `{`, a keyword, an identifier — ends the statement")
+	c.floor(1)
+	ruleSeparatorRefusals(c, t, a)
+	c.rule("R2.7", "every part of a construct that its printer treats as optional (a child printed under a nil test) can really be left out and can really be given: among the success paths of the parse methods that build the node there is one that leaves the field unset and one that fills it")
+	c.floor(4)
+	ruleOptionalPartsAreOptional(c, t)
+	c.rule("R2.6", "lists are parsed by loops: every function of the parser that builds a list of nodes element by element appends to it inside a loop (a list of three parameters, arguments, elements, properties or statements is a valid program; an `if` where the loop belongs accepts at most two)")
+	c.floor(3)
+	ruleListsLoop(c)
 	c.rule("R2.5", "white space: the byte test the trivia skipper loops on is true for space, tab, line feed and carriage return, and for nothing outside ECMAScript's ASCII white space and line terminators (a CR LF source must not produce ILLEGAL tokens, and no other byte may vanish between tokens)")
 	c.floor(1)
 	ruleWhitespaceSet(c)
+}
+
+// ruleSeparatorRefusals (R2.4c): the refusing paths of the separator predicates that have established "the next token
+// follows a line break".
+func ruleSeparatorRefusals(c *Ctx, t *tables, a *parserAnchors) {
+	tc := t.tc
+	// the separator check and the bool predicates of the package it calls
+	fns := []*ssa.Function{a.expectSemi}
+	allInstrs(a.expectSemi, func(_ *ssa.BasicBlock, _ int, in ssa.Instruction) {
+		if call, ok := in.(*ssa.Call); ok {
+			g := call.Call.StaticCallee()
+			if g != nil && g.Pkg == a.expectSemi.Pkg && g != a.nextTok && !a.errRecorders[g] && a.purePredicate(g) {
+				fns = append(fns, g)
+			}
+		}
+	})
+	n := 0
+	for _, f := range fns {
+		complete := a.enumPaths(f.Blocks[0], func(facts []pathFact, blocks []*ssa.BasicBlock, last *ssa.BasicBlock) {
+			ret, ok := last.Instrs[len(last.Instrs)-1].(*ssa.Return)
+			if !ok || len(ret.Results) != 1 {
+				return
+			}
+			for _, ra := range a.returnAlternatives(ret.Results[0], facts, blocks, last) {
+				if ra.val {
+					continue
+				}
+				nl := false
+				var types_ []int64
+				for _, pf := range ra.facts {
+					if pf.at.kind == atPeekNewline && !pf.at.neg {
+						nl = true
+					}
+					if pf.at.kind == atPeekType && !pf.at.neg {
+						types_ = append(types_, pf.at.k)
+					}
+				}
+				if !nl {
+					continue // refusals on the same line are the normal case
+				}
+				n++
+				key := fmt.Sprintf("%s: refusal #%d after a line break", fnName(f), n)
+				if len(types_) == 0 {
+					c.bad(key, ret.Pos(), "the separator is refused after a line break whatever the next token is: automatic semicolon insertion never applies on this path")
+					continue
+				}
+				var wrong []string
+				for _, k := range types_ {
+					if t.pt.infix[k] == nil {
+						wrong = append(wrong, tc.name(k))
+					}
+				}
+				c.check(len(wrong) == 0, key, ret.Pos(), "only in front of a token with an infix function", fmt.Sprintf("after a line break the separator is refused in front of %s, which cannot continue an expression: a statement followed by such a token on the next line (a block after an expression statement, …) is reported as an error although a line break ends it", strings.Join(wrong, ", ")))
+			}
+		})
+		if !complete {
+			c.unres(fnName(f)+": paths", f.Pos(), "too many paths")
+		}
+	}
+	if n == 0 {
+		c.info("refusals after a line break", a.expectSemi.Pos(), "none: a line break always ends the statement")
+	}
+}
+
+// ruleOptionalPartsAreOptional (R2.7): the printer's nil tests say which children a node may lack (`for (;;)`, an `if`
+// without `else`, `return` without a value, `let x` without an initialiser). The parse-path enumerator must find, for
+// each of them, a feasible success path without the child and one with it — a guard written against the wrong token
+// (`for (a; b;)` testing for ';' where ')' ends the clause) makes one of the two infeasible although every test passes.
+func ruleOptionalPartsAreOptional(c *Ctx, t *tables) {
+	g := c.grammar(t)
+	var nodes []string
+	for n := range g.printers {
+		nodes = append(nodes, n)
+	}
+	sort.Strings(nodes)
+	for _, n := range nodes {
+		pe := g.printers[n]
+		opt := map[string]token.Pos{}
+		var walk func(evs []*pev)
+		walk = func(evs []*pev) {
+			for _, e := range evs {
+				if e.kind == evOpt && strings.HasPrefix(e.cond, "nonnil:") {
+					f := strings.TrimPrefix(e.cond, "nonnil:")
+					if _, ok := opt[f]; !ok {
+						opt[f] = e.pos
+					}
+				}
+				walk(e.kids)
+				walk(e.alt)
+			}
+		}
+		walk(pe.root)
+		if len(opt) == 0 || len(g.byNode[n]) == 0 {
+			continue
+		}
+		var fields []string
+		for f := range opt {
+			fields = append(fields, f)
+		}
+		sort.Strings(fields)
+		understood := true
+		for _, gm := range g.byNode[n] {
+			if len(gm.issues) > 0 {
+				understood = false
+			}
+		}
+		for _, f := range fields {
+			key := fmt.Sprintf("%s.%s can be left out and can be given", n, f)
+			if !understood {
+				c.unres(key, opt[f], "a parse method of the node was not understood by the path enumerator")
+				continue
+			}
+			// only parts the PARSER treats as optional too: some parse method of the node assigns the field under a
+			// condition (inside an if / switch) and nowhere unconditionally; a nil test in the printer alone is defensive
+			condAssign, plainAssign := false, false
+			for _, gm := range g.byNode[n] {
+				fd := c.declIdx[gm.method]
+				if fd == nil || fd.Body == nil {
+					continue
+				}
+				var visit func(node ast.Node, nested bool)
+				visit = func(node ast.Node, nested bool) {
+					ast.Inspect(node, func(x ast.Node) bool {
+						switch v := x.(type) {
+						case *ast.IfStmt:
+							if v.Init != nil {
+								visit(v.Init, nested)
+							}
+							visit(v.Body, true)
+							if v.Else != nil {
+								visit(v.Else, true)
+							}
+							return false
+						case *ast.CaseClause:
+							for _, st := range v.Body {
+								visit(st, true)
+							}
+							return false
+						case *ast.AssignStmt:
+							for _, l := range v.Lhs {
+								if sel, ok := l.(*ast.SelectorExpr); ok && sel.Sel.Name == f {
+									if nested {
+										condAssign = true
+									} else {
+										plainAssign = true
+									}
+								}
+							}
+						case *ast.KeyValueExpr:
+							if id, ok := v.Key.(*ast.Ident); ok && id.Name == f {
+								if nested {
+									condAssign = true
+								} else {
+									plainAssign = true
+								}
+							}
+						}
+						return true
+					})
+				}
+				visit(fd.Body, false)
+			}
+			if !condAssign || plainAssign {
+				c.info(key+" (not optional in the parser)", opt[f], "the parser fills it unconditionally; the printer's nil test is defensive")
+				continue
+			}
+			set, unset := false, false
+			for _, gm := range g.byNode[n] {
+				for _, gp := range gm.paths {
+					v, ok := gp.fields[f]
+					if !ok || v.kind == vNil {
+						unset = true
+					} else {
+						set = true
+					}
+				}
+			}
+			switch {
+			case set && unset:
+				c.ok(key, opt[f], "a success path without it and one with it")
+			case !unset:
+				c.bad(key, opt[f], "no feasible success path leaves %s.%s out although its printer allows that: the test that should skip it cannot succeed together with the token check that follows (the construct without this part — valid JavaScript — is rejected)", n, f)
+			default:
+				c.bad(key, opt[f], "no feasible success path fills %s.%s: the part can never be given", n, f)
+			}
+		}
+	}
+}
+
+// ruleListsLoop (R2.6): per function and per element type, the appends of ast values; one of them must sit in a cycle
+// of the control-flow graph.
+func ruleListsLoop(c *Ctx) {
+	c.buildSSA()
+	n := 0
+	for _, f := range c.libFunctions("parser") {
+		type grp struct {
+			first   *ssa.Call
+			inCycle bool
+			count   int
+		}
+		groups := map[string]*grp{}
+		var order []string
+		allInstrs(f, func(b *ssa.BasicBlock, _ int, in ssa.Instruction) {
+			iv, isVal := in.(ssa.Value)
+			if !isVal {
+				return
+			}
+			call, ok := isBuiltinCall(iv, "append")
+			if !ok {
+				return
+			}
+			sl, ok := call.Type().Underlying().(*types.Slice)
+			if !ok {
+				return
+			}
+			et := sl.Elem()
+			if pt, ok := et.(*types.Pointer); ok {
+				et = pt.Elem()
+			}
+			nt := namedOf(et)
+			if nt == nil || nt.Obj().Pkg() == nil || nt.Obj().Pkg().Path() != modPath+"/ast" {
+				return
+			}
+			name := nt.Obj().Name()
+			g := groups[name]
+			if g == nil {
+				g = &grp{first: call}
+				groups[name] = g
+				order = append(order, name)
+			}
+			g.count++
+			if reachesBlock(b, b) {
+				g.inCycle = true
+			}
+		})
+		// a helper that appends one element may be the body of its caller's loop
+		calledInLoop := false
+		for _, h := range c.libFunctions("parser") {
+			allInstrs(h, func(b *ssa.BasicBlock, _ int, in ssa.Instruction) {
+				if call, ok := in.(*ssa.Call); ok && call.Call.StaticCallee() == f && f.Object() != nil && !f.Object().Exported() && reachesBlock(b, b) {
+					calledInLoop = true
+				}
+			})
+		}
+		for _, name := range order {
+			g := groups[name]
+			n++
+			if !g.inCycle && calledInLoop {
+				c.ok(fmt.Sprintf("%s: the list of %s grows in a loop", fnName(f), name), g.first.Pos(), "%d append(s); the helper is called inside a loop of its caller", g.count)
+				continue
+			}
+			c.check(g.inCycle, fmt.Sprintf("%s: the list of %s grows in a loop", fnName(f), name), g.first.Pos(), fmt.Sprintf("%d append(s), at least one inside a loop", g.count), fmt.Sprintf("the function appends %s values %d time(s) but never inside a loop: the list it parses can hold at most that many elements, a longer one (valid JavaScript) is rejected or cut short", name, g.count))
+		}
+	}
+	if n == 0 {
+		c.unres("list builders", token.NoPos, "no function of package parser appends ast values")
+	}
 }
 
 // ruleWhitespaceSet (R2.5): the predicate the skipper skips with, folded for every byte.
